@@ -258,7 +258,8 @@ DoSetData(S, x, d, xid, wc, why) ==
    LET group == {i \in Reach(S) : S.did[i] = S.did[x]}
        isClone == Cardinality(group) > 1
        newDid == IF xid # 0 THEN xid ELSE IF d # 0 /\ d # S.dat[x] THEN DefDid(d) ELSE S.did[x]
-       newDat(i) == IF d # 0 THEN d ELSE S.dat[i]
+       \* passing the node's own current data object means "data unchanged" (only the id may change)
+       newDat(i) == IF d # 0 /\ d # S.dat[x] THEN d ELSE S.dat[i]
        T == IF wc = "true" THEN group ELSE {x}
        S1 == FoldLeft(LAMBDA acc, i : [Rekey(acc, i, newDid) EXCEPT !.dat[i] = newDat(i)],
                       S, SetToSortSeq(T, <))
